@@ -10,7 +10,7 @@ Confirms a seeded breaking change independently and records whether the check ca
 Nothing is ever committed to /repo."""
 import json, os, re, shutil, subprocess, sys, time
 
-WT = "/var/tmp/seedwt"
+WT = os.environ.get("SEEDWT", "/var/tmp/seedwt")
 ROOT = os.path.dirname(os.path.dirname(os.path.abspath(__file__)))
 
 
@@ -34,7 +34,7 @@ def run_suite():
 def build_demo(d, tag):
     """build the demonstration against the scratch worktree; returns (ok, how to run)"""
     bs = os.path.join(d, "build.sh")
-    work = "/var/tmp/seed-demo-%s" % tag
+    work = "/var/tmp/seed-demo-%s-%s" % (os.path.basename(WT), tag)
     shutil.rmtree(work, ignore_errors=True)
     shutil.copytree(d, work)
     if os.path.exists(os.path.join(work, "demo.py")) and not os.path.exists(os.path.join(work, "demo.cpp")):
@@ -82,8 +82,7 @@ def main():
     if rc != 0:
         report["error"] = "patch does not apply to /repo HEAD: " + out[-500:]
         print(json.dumps(report, indent=1)); return 2
-    # --- unpatched: demo passes
-    rc, out = sh("nice -n 3 ninja -C %s/_build -j12 2>&1 | tail -3" % WT)
+    # --- unpatched: demo passes (header-only library: the demo needs no build of the test suite)
     ok, exe, work, blog = build_demo(d, "orig")
     if not ok:
         report["error"] = "demo does not build on the unpatched tree: " + blog
@@ -111,14 +110,14 @@ def main():
         report["demo_fails_with_patch"] = None
         report["demo_build_error_with_patch"] = blog
     sh("git apply -R %s" % patch, cwd=WT)
-    shutil.rmtree("/var/tmp/seed-demo-orig", ignore_errors=True)
-    shutil.rmtree("/var/tmp/seed-demo-mut", ignore_errors=True)
+    shutil.rmtree("/var/tmp/seed-demo-%s-orig" % os.path.basename(WT), ignore_errors=True)
+    shutil.rmtree("/var/tmp/seed-demo-%s-mut" % os.path.basename(WT), ignore_errors=True)
     valid = bool(report["existing_tests_pass"] and report["demo_fails_with_patch"] and report["demo_passes_without_patch"])
     report["valid_seed"] = valid
     # --- does the check catch it?  (patch applied to the scratch worktree, check run from a scratch worktree of /verif
     #     with VERIF_REPO pointing there: same as applying to /repo, but /repo and /verif/evidence stay untouched)
     if valid and "--no-check" not in sys.argv:
-        SV = "/var/tmp/seedverif"
+        SV = os.environ.get("SEEDVERIF", "/var/tmp/seedverif")
         sh("git checkout -q --detach %s" % sh("git rev-parse main", cwd=ROOT)[1].strip(), cwd=SV)
         report["verif_commit"] = sh("git rev-parse --short HEAD", cwd=SV)[1].strip()
         rc, out = sh("git apply %s" % patch, cwd=WT)
